@@ -32,8 +32,9 @@ const (
 type DrvHook func(ctx context.Context, kind CallKind, query string, after bool) error
 
 var (
-	hookMu  sync.RWMutex
-	drvHook DrvHook
+	hookMu   sync.RWMutex
+	drvHook  DrvHook            // process-wide hook (single-Env commands)
+	drvHooks = map[string]DrvHook{} // per-database hooks, keyed by DSN
 )
 
 func SetDrvHook(h DrvHook) {
@@ -42,14 +43,31 @@ func SetDrvHook(h DrvHook) {
 	hookMu.Unlock()
 }
 
-func callHook(ctx context.Context, kind CallKind, q string, after bool) error {
-	hookMu.RLock()
-	h := drvHook
-	hookMu.RUnlock()
+// SetDBHook installs a hook for one database only (parallel workers each own a database).
+func SetDBHook(dsn string, h DrvHook) {
+	hookMu.Lock()
 	if h == nil {
-		return nil
+		delete(drvHooks, dsn)
+	} else {
+		drvHooks[dsn] = h
 	}
-	return h(ctx, kind, q, after)
+	hookMu.Unlock()
+}
+
+func callHookFor(dsn string, ctx context.Context, kind CallKind, q string, after bool) error {
+	hookMu.RLock()
+	h := drvHooks[dsn]
+	g := drvHook
+	hookMu.RUnlock()
+	if h != nil {
+		if err := h(ctx, kind, q, after); err != nil {
+			return err
+		}
+	}
+	if g != nil {
+		return g(ctx, kind, q, after)
+	}
+	return nil
 }
 
 const WrappedDriverName = "verifsqlite3"
@@ -65,10 +83,13 @@ func (d *wDriver) Open(name string) (driver.Conn, error) {
 	if err != nil {
 		return nil, err
 	}
-	return &wConn{inner: c.(*sqlite3.SQLiteConn)}, nil
+	return &wConn{inner: c.(*sqlite3.SQLiteConn), dsn: name}, nil
 }
 
-type wConn struct{ inner *sqlite3.SQLiteConn }
+type wConn struct {
+	inner *sqlite3.SQLiteConn
+	dsn   string
+}
 
 var (
 	_ driver.ConnBeginTx        = (*wConn)(nil)
@@ -86,7 +107,7 @@ func (c *wConn) PrepareContext(ctx context.Context, q string) (driver.Stmt, erro
 	if err != nil {
 		return nil, err
 	}
-	return &wStmt{inner: s.(*sqlite3.SQLiteStmt), q: q}, nil
+	return &wStmt{inner: s.(*sqlite3.SQLiteStmt), q: q, dsn: c.dsn}, nil
 }
 func (c *wConn) Close() error { return c.inner.Close() }
 func (c *wConn) Begin() (driver.Tx, error) {
@@ -94,33 +115,33 @@ func (c *wConn) Begin() (driver.Tx, error) {
 }
 func (c *wConn) Ping(ctx context.Context) error { return c.inner.Ping(ctx) }
 func (c *wConn) BeginTx(ctx context.Context, opts driver.TxOptions) (driver.Tx, error) {
-	if err := callHook(ctx, KBegin, "", false); err != nil {
+	if err := callHookFor(c.dsn, ctx, KBegin, "", false); err != nil {
 		return nil, err
 	}
 	tx, err := c.inner.BeginTx(ctx, opts)
 	if err != nil {
 		return nil, err
 	}
-	_ = callHook(ctx, KBegin, "", true)
-	return &wTx{inner: tx, ctx: ctx}, nil
+	_ = callHookFor(c.dsn, ctx, KBegin, "", true)
+	return &wTx{inner: tx, ctx: ctx, dsn: c.dsn}, nil
 }
 func (c *wConn) ExecContext(ctx context.Context, q string, args []driver.NamedValue) (driver.Result, error) {
-	if err := callHook(ctx, KExec, q, false); err != nil {
+	if err := callHookFor(c.dsn, ctx, KExec, q, false); err != nil {
 		return nil, err
 	}
 	r, err := c.inner.ExecContext(ctx, q, args)
 	if err == nil {
-		_ = callHook(ctx, KExec, q, true)
+		_ = callHookFor(c.dsn, ctx, KExec, q, true)
 	}
 	return r, err
 }
 func (c *wConn) QueryContext(ctx context.Context, q string, args []driver.NamedValue) (driver.Rows, error) {
-	if err := callHook(ctx, KQuery, q, false); err != nil {
+	if err := callHookFor(c.dsn, ctx, KQuery, q, false); err != nil {
 		return nil, err
 	}
 	r, err := c.inner.QueryContext(ctx, q, args)
 	if err == nil {
-		_ = callHook(ctx, KQuery, q, true)
+		_ = callHookFor(c.dsn, ctx, KQuery, q, true)
 	}
 	return r, err
 }
@@ -128,6 +149,7 @@ func (c *wConn) QueryContext(ctx context.Context, q string, args []driver.NamedV
 type wStmt struct {
 	inner *sqlite3.SQLiteStmt
 	q     string
+	dsn   string
 }
 
 func (s *wStmt) Close() error  { return s.inner.Close() }
@@ -139,22 +161,22 @@ func (s *wStmt) Query(args []driver.Value) (driver.Rows, error) {
 	return nil, errors.New("wStmt.Query: use QueryContext")
 }
 func (s *wStmt) ExecContext(ctx context.Context, args []driver.NamedValue) (driver.Result, error) {
-	if err := callHook(ctx, KExec, s.q, false); err != nil {
+	if err := callHookFor(s.dsn, ctx, KExec, s.q, false); err != nil {
 		return nil, err
 	}
 	r, err := s.inner.ExecContext(ctx, args)
 	if err == nil {
-		_ = callHook(ctx, KExec, s.q, true)
+		_ = callHookFor(s.dsn, ctx, KExec, s.q, true)
 	}
 	return r, err
 }
 func (s *wStmt) QueryContext(ctx context.Context, args []driver.NamedValue) (driver.Rows, error) {
-	if err := callHook(ctx, KQuery, s.q, false); err != nil {
+	if err := callHookFor(s.dsn, ctx, KQuery, s.q, false); err != nil {
 		return nil, err
 	}
 	r, err := s.inner.QueryContext(ctx, args)
 	if err == nil {
-		_ = callHook(ctx, KQuery, s.q, true)
+		_ = callHookFor(s.dsn, ctx, KQuery, s.q, true)
 	}
 	return r, err
 }
@@ -162,20 +184,21 @@ func (s *wStmt) QueryContext(ctx context.Context, args []driver.NamedValue) (dri
 type wTx struct {
 	inner driver.Tx
 	ctx   context.Context
+	dsn   string
 }
 
 func (t *wTx) Commit() error {
-	if err := callHook(t.ctx, KCommit, "", false); err != nil {
+	if err := callHookFor(t.dsn, t.ctx, KCommit, "", false); err != nil {
 		_ = t.inner.Rollback()
 		return err
 	}
 	err := t.inner.Commit()
 	if err == nil {
-		_ = callHook(t.ctx, KCommit, "", true)
+		_ = callHookFor(t.dsn, t.ctx, KCommit, "", true)
 	}
 	return err
 }
 func (t *wTx) Rollback() error {
-	_ = callHook(t.ctx, KRollback, "", false)
+	_ = callHookFor(t.dsn, t.ctx, KRollback, "", false)
 	return t.inner.Rollback()
 }
